@@ -366,7 +366,7 @@ func sweepC05(tier string, emit func(*CaseC05)) {
 			continue
 		}
 		bs := rowBoxes(n, 7, 7)
-		emit(&CaseC05{A: bs, B: []ref.Box{bs[n-1]}, Spatial: true})
+		emit(allProcs(&CaseC05{A: bs, B: []ref.Box{bs[n-1]}, Spatial: true}))
 		emit(&CaseC05{A: bs[:n/4], B: []ref.Box{{H: 7, X: 127, Y: 127, V: 7, F: 60}}})
 	}
 	// all pairs of boxes at zooms <= 2 on a reduced horizontal grid (x,y < 2), extended form
